@@ -435,6 +435,9 @@ def run(ctx):
     basis_typing(ctx)
     rep.rule("C28.R7", "axis-bearing joint types build the joint frame and the child's relative motion from joint.axis (taint)", 6)
     axis_used(ctx)
+    rep.rule("C28.R13", "the pose helpers the importer uses for floating joints (RigidBody.q2pose / pose2q) build rotations with the normalising quaternion map: a requested quaternion need not be unit", 4)
+    from .c11 import normalising_rule
+    normalising_rule(ctx, "C28.R13", lambda rel: rel == "cardillo/discrete/rigid_body.py", 4)
     rep.rule("C28.R12", "links are resolved through the importer's own table, not through the System's single name registry (URDF: separate name spaces for links and joints)", 1)
     link_lookup(ctx)
     rep.rule("C28.R11", "rpy_to_A composes URDF's fixed-axis roll-pitch-yaw as Rz(yaw) Ry(pitch) Rx(roll) (signed-monomial normal form of the nine entries)", 1)
@@ -671,4 +674,8 @@ NEUTRAL += [
 MUTANTS += [
     dict(id="c28-r12-orig", canary=True, what="joint subsystems looked up in system.contributions_map (original defect F52)", file=URDF,
          old="                kwargs_joint[\"subsystem2\"] = bodies[child.name]\n", new="                kwargs_joint[\"subsystem2\"] = system.contributions_map[child.name]\n", expect="C28.R12"),
+]
+MUTANTS += [
+    dict(id="c28-r13-seed", canary=True, what="[seeded by sub-agent] RigidBody.q2pose skips the quaternion normalisation", file="cardillo/discrete/rigid_body.py",
+         old="        return q[:3], Exp_SO3_quat(q[3:])\n", new="        return q[:3], Exp_SO3_quat(q[3:], normalize=False)\n", expect="C28.R13"),
 ]
